@@ -32,7 +32,7 @@ CLAIMED = {
         "spec/Sem.tla is a big-step call-by-name reference semantics of the core language (locals, functions with "
         "default/named arguments, objects as layer sequences with self/super/$, visibility, +:, object locals and asserts, "
         "comprehensions, slices, error/assert, string coercion) written from the language definition. TLC enumerates every "
-        "closed program of six grammar slices (thorough: ~190k programs; quick: seeded subsets), evaluates it with the "
+        "closed program of seven grammar slices incl. ~60 library members (thorough: ~200k programs; quick: seeded subsets), evaluates it with the "
         "reference semantics and prints source + expected outcome; the implementation must produce the same JSON, and the "
         "same kind and message for error/assert.",
         "DESIGN.md §5 C02",
@@ -161,9 +161,10 @@ CLAIMED = {
         "aliases, cycles, binary content), and emits each terminal behaviour; every scenario is materialised and run "
         "through the real binary: exit status, manifested value (which file, thisFile, text, bytes), TRACE lines per "
         "file (= evaluations), error site."
-        " Code files given with --ext-code-file / --tla-code-file are bound before the run, enter the same cache (thisFile = command-line spelling, evaluated lazily at most once) and resolve their own imports against their directory: scenario family codefile.",
+        " Code files given with --ext-code-file / --tla-code-file are bound before the run, enter the same cache (thisFile = command-line spelling, evaluated lazily at most once) and resolve their own imports against their directory: scenario family codefile. A main program given as text (-e / standard input) has no directory: its relative imports are answered by -J alone, absolute ones as spelled, std.thisFile is <cmdline> / <stdin> (invariant NoDirSearch, family virt).",
         "DESIGN.md §5 C13",
-        "Sources from -e/stdin, symlink loops and permission faults (runs as root) are outside the domain; message texts "
+        "Symlink loops and permission faults (runs as root) are outside the domain, as is a program given with -e / "
+        "on standard input that is reached again through the file holding its text; message texts "
         "are not compared.",
         "TLA+ model of resolver/cache model-checked by TLC + replay of every scenario against the real binary", "tlc+cli"),
     "C14": E("model_checking",
